@@ -5,6 +5,15 @@ write events (outputs / outputAck / rw2r, connection_reactor.go), closers and th
 ADVERSARIAL kernel (each send accepts any part of what is offered, or nothing).
 One model step per atomic step of the Go code.  Any number of Flush calls (one flusher at a time holds
 `flushing`; a concurrent one is rejected), any number of poller write events.  Core Lean only.
+
+Tied to the code by trace conformance (lean/Driver/Flush.lean replays the traces of the real code under the
+controlled scheduler with a scripted kernel, go/inpkg/sched_flush.go) and by the sync-operation lists of
+Netpoll.Tie.ReadFlush.  Read off the code while building that tie:
+  * outputAck is two steps (Skip, then the IsEmpty check that decides about rw2r): `psend` / `ackChk`;
+  * waitFlush with an already expired write deadline returns ErrWriteTimeout right after Control(PollR2RW),
+    WITHOUT Control(PollRW2R): the descriptor stays registered for writability (`flushX`, `dlExpired`);
+  * the finalizer's `stop(flushing)` (CAS 0 -> 2) after a close (`stopF`): a Flush that passed its IsActive check
+    before the close then fails its lock and reports ErrConcurrentAccess.
 -/
 namespace Netpoll.Conn.Flush
 
@@ -39,7 +48,8 @@ deriving Repr, DecidableEq
 inductive PPc where
   | idle
   | outputs             -- `c.outputs`: empty? rw2r : GetBytes
-  | sendAck             -- iosend; outputAck(n): Skip; Release; empty?
+  | sendAck             -- iosend; outputAck(n): Skip; Release
+  | ackChk              -- outputAck: `if c.outputBuffer.IsEmpty() { c.rw2r() }`
   | rw2rCtl             -- rw2r: Control(PollRW2R)
   | rw2rTrig            -- rw2r: triggerWrite(nil)
 deriving Repr, DecidableEq
@@ -64,10 +74,13 @@ structure S where
   timedOutEver : Bool := false  -- ghost: some Flush on this connection returned ErrWriteTimeout
   results : List (Result × Nat × Bool) := []   -- ghost: (result, `out` at return, timedOutEver before the call), newest first
   startedAfterTimeout : Bool := false
+  dlExpired : Bool := false     -- the call in progress has a write deadline that has already expired
 deriving Repr, DecidableEq
 
 inductive Act where
   | flush (add : Nat) (timed : Bool)   -- a goroutine calls Flush with `add` malloc'ed bytes pending
+  | flushX (add : Nat)                 -- ... with a write deadline that has already expired
+  | stopF                              -- the finalizer (after a close): `stop(flushing)` succeeds, CAS(flushing, 0, 2)
   | flush2                             -- another goroutine calls Flush while one is in progress: rejected, changes nothing
   | fstep
   | fsend (k : Nat)                    -- the flusher's sendmsg accepts k bytes (0 = EAGAIN)
@@ -88,7 +101,9 @@ def finish (s : S) (r : Result) : S :=
            timedOutEver := if r = .errTimeout then true else s.timedOutEver }
 
 def step (s : S) : Act → Option S
-  | .flush add timed => if s.f = .idle then some { s with f := .chkActive add timed, startedAfterTimeout := s.timedOutEver } else none
+  | .flush add timed => if s.f = .idle then some { s with f := .chkActive add timed, startedAfterTimeout := s.timedOutEver, dlExpired := false } else none
+  | .flushX add => if s.f = .idle then some { s with f := .chkActive add true, startedAfterTimeout := s.timedOutEver, dlExpired := true } else none
+  | .stopF => if s.flushing = 0 ∧ s.closing ≠ 0 then some { s with flushing := 2 } else none
   | .flush2 => if s.f ≠ .idle ∧ s.flushing = 1 then some s else none   -- lock(flushing) fails: ErrConcurrentAccess
   | .fstep =>
     match s.f with
@@ -101,7 +116,9 @@ def step (s : S) : Act → Option S
     | .submit add timed => some { s with out := s.out + add, submitted := s.submitted + add, f := .chkEmpty1 timed }
     | .chkEmpty1 timed => if s.out = 0 then some { s with f := .unlock .ok } else some { s with f := .send timed }
     | .chkEmpty2 timed => if s.out = 0 then some { s with f := .unlock .ok } else some { s with f := .r2rw timed }
-    | .r2rw timed => some { s with interestW := true, f := if timed then .arm else .wait false }
+    | .r2rw timed =>
+      if timed ∧ s.dlExpired then some { s with interestW := true, f := .unlock .errTimeout }   -- `timeout <= 0`: no RW2R
+      else some { s with interestW := true, f := if timed then .arm else .wait false }
     | .arm => some { s with timerRunning := true, f := .wait true }
     | .tmoRecv =>
       match s.slot with
@@ -133,16 +150,14 @@ def step (s : S) : Act → Option S
   | .pstep =>
     match s.p with
     | .outputs => if s.out = 0 then some { s with p := .rw2rCtl } else some { s with p := .sendAck }
+    | .ackChk => if s.out = 0 then some { s with p := .rw2rCtl } else some { s with p := .idle }
     | .rw2rCtl => some { s with interestW := false, p := .rw2rTrig }
     | .rw2rTrig => some { (trySend s .done) with p := .idle }
     | _ => none
   | .psend k =>
     match s.p with
     | .sendAck =>
-      if k ≤ s.out then
-        let s' := { s with out := s.out - k, accepted := s.accepted + k }
-        some { s' with p := if s'.out = 0 then .rw2rCtl else .idle }
-      else none
+      if k ≤ s.out then some { s with out := s.out - k, accepted := s.accepted + k, p := .ackChk } else none
     | _ => none
   | .close => if s.closing = 0 then some { s with closing := 1, c := .trig } else none
   | .cstep => if s.c = .trig then some { (trySend s .errClosed) with c := .none } else none
